@@ -20,6 +20,7 @@ RULE = ('Grammar-mirroring generator (G1): documents of 0-10 (quick) / 0-40 (tho
         'store concatenation == text; every sub-model prints its slice and owns exactly that store segment; the non-empty tokens '
         '(RULE, text) equal the generator\'s own piece list. Non-trivial = accepted text with >= 2 lines containing a block comment, a '
         'whitespace-only line, a CR, a missing final newline or a multi-line string, or any non-File target. distinct = distinct case hash.')
+RULE = RULE + ' Round 8: strings, comments and account names also draw characters outside Unicode normalisation form C / KC; 3% of the number literals have 19-34 digits.'
 ASSUMPTIONS = [
     'only lark exceptions (and ValueError from a lexeme without a valid meaning) define "not accepted"; such cases are discards',
     'number_add_expr and number_mul_expr are registered parse targets that reject every text (the post-lexer appends an end-of-line '
